@@ -213,6 +213,12 @@ static void do_api(op_t op) {
         break; }
     /* ------------------------------------------------ module life */
     case O_REG: {
+        if (op.b == 8) {      /* hook == NULL: a module loaded at run time; the file does not exist, so the registration fails after the module object was built - it must leave no trace */
+            m_mod_t *ph = NULL; take_snap(&sn);
+            rc = m_mod_register("/nonexistent/verif-plugin.so", &ph, NULL, 0, NULL);
+            if (rc >= 0 || ph) vfail("ST.refuse", "ST.refuse|plugin", "m_mod_register of a plugin file that does not exist returned %d", rc);
+            check_unchanged(&sn, "m_mod_register(missing plugin)", "ST.refuse|plugin");
+            break; }
         m_mod_hook_t hk = { w_start, (op.b >> 1) ? w_eval : NULL, w_evt0, w_stop };
         m_mod_t *nh = NULL; take_snap(&sn);
         int replace = CX.exists && !CX.finalized && MD[s].present && !ctx_hidden() && mflag(s, M_MOD_ALLOW_REPLACE) && !(mflag(s, M_MOD_PERSIST) && CX.looping) && !dereg_busy[s] && !teardown_busy;
